@@ -2984,6 +2984,10 @@ def _subrun_root_task(
         # information such as job id and call_hash.
         if not isinstance(result, dict):
             raise AssertionError(f"Unknown scheduler result: {result}")
+        if "error" in result:
+            # A failed sub-execution fails this task, as it does with new_execution=True. Returned as
+            # a value, the failure would be cached and replayed by later executions instead of re-run.
+            raise result["error"]
         subrun_result.update(result)
 
     else:
